@@ -120,7 +120,9 @@ def cases(tier, seed):
       if li < nw - 1 or rnd.random() < 0.5:
         aq = rnd.choice([Qd("quantized_relu", bits=rnd.choice([1, 2, 3, 4]), integer=rnd.choice([0, 1])),
                          Qd("quantized_bits", bits=rnd.choice([3, 4]), integer=rnd.choice([0, 1]), symmetric=1),
-                         Qd("binary", alpha=1.0), Qd("ternary", alpha=1.0)])
+                         Qd("binary", alpha=1.0), Qd("ternary", alpha=1.0),
+                         # a bound the quantizer ignores (is_quantized_clip defaults to True): values still reach the top code
+                         Qd("quantized_relu", bits=rnd.choice([5, 6]), integer=rnd.choice([3, 4]), relu_upper_bound=rnd.choice([3.0, 6.0]))])
         layers.append({"t": "QActivation", "name": nm("act"), "kw": {"activation": aq}})
       if rank == 4 and li < nw - 1 and rnd.random() < 0.3:
         layers.append({"t": "Flatten", "name": nm("flat"), "kw": {}})
